@@ -137,7 +137,7 @@ def run(rep, tier, pool, variants=("shipped",)):
                 rep.count("skipped:" + out["skip"])
                 continue
             rep.case(ident, True)
-            if out.get("k") in ("hang", "crash", "worker-exc"):
+            if out.get("k") in ("hang", "crash", "worker-exc", "not-run"):
                 rep.violation(f"C01 {out.get('k')} on {short(src, 80)}", {"property": "C01", "input": src, "mode": mode, "observed": out, "variant": variant})
                 continue
             if out.get("class") == "nonascii-columns":
